@@ -607,9 +607,9 @@ unsafe fn do_spawn<F: PreExec>(
                 return Err(Error::os("Failed to wait for process", Errno::new(errno)));
             }
             Err(ref e) if matches!(e.code, Some(Errno::EINTR)) => {}
-            Err(_) => {
+            Err(e) => {
                 let _ = process.wait();
-                return Err(Error::no_code("The cloexec pipe failed"));
+                return Err(e.into());
             }
             Ok(..) => {
                 // pipe I/O up to PIPE_BUF bytes should be atomic
